@@ -40,7 +40,9 @@ EXPLANATION = (
     "path.  R7 in the path resolvers and the methods they delegate to, a container that outlives one loop iteration and is both filled "
     "and consulted inside the loop (a memo of per-node decisions) is keyed by the loop element, by values built from loop variables or "
     "by the identity of the object looked up for the element - never by an attribute of that object (template .name/.path are not "
-    "unique per node) or by a loop-invariant value.  NOT decided: that get_nodes enumerates wildcards in declaration "
+    "unique per node) or by a loop-invariant value.  R8 wherever circuit.py looks up the per-edge column index that _add_input writes "
+    "(`source_idx`, and its target counterpart) with a default, the result is not tested by truthiness when the stored value is a "
+    "single index (index 0 is legal): presence is decided by membership, comparison with None or a raising look-up.  NOT decided: that get_nodes enumerates wildcards in declaration "
     "order for every hierarchy (dict insertion order, library guarantee), the numerical values, what the backend does with the index."
 )
 RULE_TEXT = ("R1: one obligation per sink (call of get_nodes/_get_var_idx resolved through the call graph, subscript of the index "
